@@ -489,6 +489,69 @@ theorem storeC_elems (c : NChar) (big : Bool) (sh : List Nat) (vs : List Int) (h
     have hj : j < vs.length := by simpa using h1
     exact readElem_storeC c big sh vs j hj (hv _ (List.getElem_mem hj))
 
+/-! ### `Rep.build`: strided / offset / contiguous, any dtype char and byte order -/
+
+theorem elemsAt_cstrides_base (a : NpArr) (w base : Nat) : ∀ (sh : List Nat) (k : Nat),
+    elemsAt a sh (cstrides w sh) ((base + k * w : Nat) : Int) =
+      (List.range (prod sh)).map fun j => readElem a ((base + (k + j) * w : Nat) : Int)
+  | [], k => by simp [elemsAt, prod]
+  | n :: sh, k => by
+    simp only [elemsAt, cstrides, prod]
+    have : ∀ i : Nat, ((base + k * w : Nat) : Int) + (i : Int) * ((w * prod sh : Nat) : Int)
+        = ((base + (k + i * prod sh) * w : Nat) : Int) := by
+      intro i; push_cast; ring
+    simp only [this, elemsAt_cstrides_base a w base sh]
+    have := range_mul_flatMap (fun r => readElem a ((base + (k + r) * w : Nat) : Int)) (prod sh) n
+    simp only [Nat.add_assoc] at this ⊢
+    exact this
+
+theorem readElem_build (r : Rep) (sh : List Nat) (vs : List Int) (j : Nat) (hj : j < vs.length)
+    (hs : 1 ≤ r.step) (hv : r.char.holds vs[j] = true) :
+    readElem (r.build sh vs) ((r.pre + (0 + j) * (r.char.size * r.step) : Nat) : Int) = .num vs[j] := by
+  have hsz : (r.build sh vs).itemsize = r.char.size := by
+    cases hc : r.char <;> simp [hc, NChar.holds, NChar.kind] at hv <;> simp [NpArr.itemsize, Rep.build, hc]
+  have hitem : ∀ it ∈ (vs.map fun v => itemBytes r.big r.char.size v ++ List.replicate ((r.step - 1) * r.char.size) r.fill),
+      it.length = r.char.size * r.step := by
+    intro it hit
+    obtain ⟨v, _, rfl⟩ := List.mem_map.mp hit
+    simp [itemBytes_length]
+    have : r.step = (r.step - 1) + 1 := by omega
+    conv => rhs; rw [this, Nat.mul_add, Nat.mul_one, Nat.mul_comm]
+    omega
+  have hbuf : ((r.build sh vs).buf.drop (r.pre + j * (r.char.size * r.step))).take r.char.size
+      = itemBytes r.big r.char.size vs[j] := by
+    have h1 := drop_take_flatten (r.char.size * r.step) _ j (by simpa using hj) hitem
+    simp only [Rep.build]
+    rw [List.drop_append, List.drop_of_length_le (by simp), List.nil_append]
+    simp only [List.length_replicate, Nat.add_sub_cancel_left]
+    have hle : r.char.size ≤ r.char.size * r.step := Nat.le_mul_of_pos_right _ hs
+    have h3 : ∀ l : Bytes, l.take r.char.size = (l.take (r.char.size * r.step)).take r.char.size := by
+      intro l; rw [List.take_take, Nat.min_eq_left hle]
+    rw [h3, h1]
+    simp [List.take_append_of_le_length, itemBytes_length, List.take_of_length_le]
+  unfold readElem
+  simp only [hsz, Nat.zero_add, Int.toNat_natCast, hbuf]
+  have hd := decode_itemBytes r.char r.big vs[j] hv
+  have hk : (r.build sh vs).char = r.char := rfl
+  have hb : (r.build sh vs).big = r.big := rfl
+  rw [hk, hb]
+  cases hc : r.char <;> simp [hc, NChar.holds, NChar.kind] at hv <;> simpa [hc, NChar.kind] using hd
+
+theorem build_elems (r : Rep) (sh : List Nat) (vs : List Int) (hs : 1 ≤ r.step) (hlen : vs.length = prod sh)
+    (hv : ∀ v ∈ vs, r.char.holds v = true) : (r.build sh vs).elems = vs.map Elem.num := by
+  unfold NpArr.elems
+  have hst : (r.build sh vs).strides = cstrides (r.char.size * r.step) sh := storeC_strides (r.char.size * r.step) sh
+  have ho : (((r.build sh vs).offset : Nat) : Int) = ((r.pre + 0 * (r.char.size * r.step) : Nat) : Int) := by
+    simp [Rep.build]
+  have hsh : (r.build sh vs).shape = sh := rfl
+  rw [hst, ho, hsh, elemsAt_cstrides_base, ← hlen]
+  apply List.ext_getElem
+  · simp
+  · intro j h1 h2
+    simp only [List.getElem_map, List.getElem_range]
+    have hj : j < vs.length := by simpa using h1
+    exact readElem_build r sh vs j hj hs (hv _ (List.getElem_mem hj))
+
 /-! ### scalars in every form and the general path of `_sequencetype` -/
 
 theorem rstrip0_append_zeros (b : Bytes) (k : Nat) : rstrip0 (b ++ zeros k) = rstrip0 b := by
